@@ -1441,6 +1441,18 @@ impl Reader {
   }
 }
 
+// Verification hook: read-only views of a writer proxy and of the fragment assembler of a writer.
+#[cfg(rustdds_verif)]
+impl Reader {
+  pub(crate) fn verif_writer_proxy_view(&self, writer: GUID) -> Option<(i64, Vec<i64>, i32, i32)> {
+    self.matched_writers.get(&writer).map(|wp| wp.verif_view())
+  }
+
+  pub(crate) fn verif_missing_frags(&self, writer: GUID, seq: SequenceNumber) -> Vec<u32> {
+    self.missing_frags_for(writer, seq).map(u32::from).collect()
+  }
+}
+
 impl HasQoSPolicy for Reader {
   fn qos(&self) -> QosPolicies {
     self.qos_policy.clone()
